@@ -304,9 +304,9 @@ Section Refinement.
     - apply Z.eqb_eq in E1. rewrite E1. apply finish_sim; congruence.
     - apply Z.eqb_neq in E1.
       replace 0%nat with (Z.to_nat (n (wrap s))) by (rewrite Wn; reflexivity).
-      apply p2_lt_sim; auto; try congruence.
-      + unfold ready. rewrite Wn, Wz, Wio. repeat split; try assumption; lia.
-      + unfold cache_fine. rewrite Wc. exact Hc.
+      apply p2_lt_sim; auto; try congruence;
+        try (unfold cache_fine; rewrite Wc; exact Hc).
+      unfold ready. rewrite Wn, Wz, Wio. repeat split; try assumption; lia.
   Qed.
 
   (* -------------------------------------------------------- one operation *)
@@ -337,7 +337,7 @@ Section Refinement.
         * exact Rz.
       + (* first loop *)
         destruct HI as (Hr & Hn & Hl & Hio & Hc). destruct RR as (Rs & Rc & Rle & Rn).
-        destruct (fuel_of_S (set_n s (n s + 1))) as (fu & ->).
+        destruct (fuel_of_S s) as (fu & ->).
         destruct (Z.eq_dec (n s + 1) (Z.of_nat N)) as [E|E].
         * apply p1_eof_sim; simpl; auto. rewrite Rn, E. apply Nat2Z.id.
         * rewrite sstep_next_lt by (try assumption; lia). rewrite Rn, Rle.
@@ -347,7 +347,7 @@ Section Refinement.
           unfold ready. simpl. repeat split; try assumption; lia.
       + (* second loop *)
         destruct HI as (Hca & Hr & Hn & Hl & Hio & Hc). destruct RR as (Rs & Rc & Rle & Rn).
-        destruct (fuel_of_S (set_n s (n s + 1))) as (fu & ->).
+        destruct (fuel_of_S s) as (fu & ->).
         destruct (Z.eq_dec (n s + 1) (Z.of_nat N)) as [E|E].
         * apply p2_end_sim; simpl; auto. rewrite Rn, E. apply Nat2Z.id.
         * rewrite sstep_next_lt by (try assumption; lia). rewrite Rn, Rle.
@@ -357,43 +357,47 @@ Section Refinement.
           unfold ready. simpl. repeat split; try assumption; lia.
       + (* exhausted or closed *)
         unfold ImgIterSpec.sstep. rewrite RR. unfold simres. simpl. split; [reflexivity|]. split.
-        * unfold Inv. rewrite Eph. auto.
-        * unfold R. rewrite Eph. auto.
+        * unfold Inv. rewrite Eph. auto 12.
+        * unfold R. rewrite Eph. auto 12.
     - (* Seek *)
       unfold ImgIter.step, ImgIterSpec.sstep.
       destruct (negb ((0 <=? p) && (p <? Z.of_nat N))) eqn:Erange.
       + unfold simres. simpl. split; [reflexivity|]. split; [split; assumption|].
-        unfold R. auto.
+        unfold R. auto 12.
       + apply negb_false_iff, andb_true_iff in Erange. destruct Erange as (E1 & E2).
         apply Z.leb_le in E1. apply Z.ltb_lt in E2.
         destruct (ph s) eqn:Eph.
         * destruct RR as (Rs & Rc & Rle & Rn). rewrite Rc, Rs.
           unfold simres. simpl. split; [reflexivity|]. split.
-          -- unfold Inv. rewrite Eph. auto.
-          -- unfold R. rewrite Eph. auto.
+          -- unfold Inv. rewrite Eph. auto 12.
+          -- unfold R. rewrite Eph. auto 12.
         * destruct HI as (Hr & Hn & Hl & Hio & Hc). destruct RR as (Rs & Rc & Rle & Rn).
           rewrite Rc, Rs. unfold simres. simpl. split; [reflexivity|]. split.
-          -- unfold Inv. simpl. rewrite Eph. split; [assumption|]. repeat split; try assumption; lia.
+          -- unfold Inv. simpl. rewrite Eph. split; [assumption|].
+             split; [assumption|]. split; [lia|]. split; [assumption|]. split; [assumption|]. exact Hc.
           -- unfold R. simpl. rewrite Eph. repeat split; try assumption. f_equal. lia.
         * destruct HI as (Hca & Hr & Hn & Hl & Hio & Hc). destruct RR as (Rs & Rc & Rle & Rn).
           rewrite Rc, Rs. unfold simres. simpl. split; [reflexivity|]. split.
-          -- unfold Inv. simpl. rewrite Eph. split; [assumption|]. repeat split; try assumption; lia.
+          -- unfold Inv. simpl. rewrite Eph. split; [assumption|].
+             split; [assumption|]. split; [assumption|]. split; [lia|]. split; [assumption|].
+             split; [assumption|]. exact Hc.
           -- unfold R. simpl. rewrite Eph. repeat split; try assumption. f_equal. lia.
         * rewrite RR. unfold simres. simpl. split; [reflexivity|]. split.
-          -- unfold Inv. rewrite Eph. auto.
-          -- unfold R. rewrite Eph. auto.
+          -- unfold Inv. rewrite Eph. auto 12.
+          -- unfold R. rewrite Eph. auto 12.
     - (* Close *)
       unfold simres. simpl. split; [reflexivity|]. split.
       + unfold Inv. simpl. auto.
-      + unfold R. simpl. auto.
+      + unfold R. simpl. auto 12.
     - (* Drop *)
       unfold simres. simpl. split; [reflexivity|]. split.
       + unfold Inv. simpl. auto.
-      + unfold R. simpl. auto.
+      + unfold R. simpl. auto 12.
     - (* the image's size is changed *)
       unfold simres. simpl. split; [reflexivity|]. split.
       + unfold Inv. simpl. split; [exact Hok|]. destruct (ph s); auto.
-      + unfold R. simpl. repeat split; try assumption. destruct (ph s); auto.
+      + unfold R. simpl. split; [assumption|]. split; [reflexivity|]. split; [assumption|].
+        destruct (ph s); exact RR.
   Qed.
 
   (* -------------------------------------------------------- all histories *)
@@ -434,4 +438,245 @@ Section Refinement.
 
   Lemma init_R : forall repeat pos0 z, R (init Str repeat pos0 z) (sinit repeat pos0 z).
   Proof. intros. unfold R, init, sinit. simpl. auto 10. Qed.
+
+  (** the state reached by any history, with its specification counterpart *)
+  Lemma reach_sim : forall repeat pos0 z ops,
+    repeat <> 0 -> In z sizes -> Forall op_ok ops ->
+    Inv (fst (run (init Str repeat pos0 z) ops)) /\
+    R (fst (run (init Str repeat pos0 z) ops)) (srun (sinit repeat pos0 z) ops).
+  Proof. intros. apply run_sim; auto using init_Inv, init_R. Qed.
+
+  (* ------------------------------------------ facts about the specification *)
+
+  Lemma produce_yield : forall (a a' : sp) k l j f,
+    produce a k l = (a', OYield j f) ->
+    j = k /\ spos a' = Z.of_nat k /\ fmt_frame k (ssize a) = Ok f /\ closed a' = false
+    /\ sloop a' = Some l /\ ssize a' = ssize a.
+  Proof.
+    intros a a' k l j f. unfold ImgIterSpec.produce.
+    destruct (fmt_frame k (ssize a)) eqn:E; intros H; inversion H; subst; simpl; auto 10.
+  Qed.
+
+  Lemma sstep_yield : forall (a a' : sp) o k f,
+    sstep a o = (a', OYield k f) ->
+    o = Next /\ (k < N)%nat /\ spos a' = Z.of_nat k /\ fmt_frame k (ssize a) = Ok f /\ closed a' = false.
+  Proof.
+    intros a a' o k f. destruct o as [|p| | |z]; simpl.
+    - destruct (closed a); [discriminate|].
+      destruct (nxt a <? N)%nat eqn:E.
+      + intros H. apply produce_yield in H. destruct H as (-> & ? & ? & ? & _).
+        apply Nat.ltb_lt in E. auto.
+      + destruct (_ =? 0); [discriminate|].
+        intros H. apply produce_yield in H. destruct H as (-> & ? & ? & ? & _).
+        repeat split; auto; lia.
+    - destruct (negb _); [discriminate|]. destruct (closed a); [discriminate|].
+      destruct (started a); discriminate.
+    - discriminate.
+    - discriminate.
+    - discriminate.
+  Qed.
+
+  Lemma sstep_no_hang : forall (a : sp) o, snd (sstep a o) <> OHang.
+  Proof.
+    intros a o. destruct o as [|p| | |z]; simpl; try discriminate.
+    - destruct (closed a); [discriminate|].
+      assert (P : forall k l, snd (produce a k l) <> OHang).
+      { intros k l. unfold ImgIterSpec.produce. destruct (fmt_frame k (ssize a)); discriminate. }
+      destruct (nxt a <? N)%nat; [apply P|]. destruct (_ =? 0); [discriminate|apply P].
+    - destruct (negb _); [discriminate|]. destruct (closed a); [discriminate|].
+      destruct (started a); discriminate.
+  Qed.
+
+  (** exhaustion in the specification: the pass counter has reached zero *)
+  Lemma sstep_stop_open : forall (a a' : sp),
+    closed a = false -> sstep a Next = (a', OStop) ->
+    spos a' = 0 /\ sloop a' = Some 0 /\ closed a' = true.
+  Proof.
+    intros a a' Hc. simpl. rewrite Hc.
+    assert (P : forall k l, produce a k l <> (a', OStop)).
+    { intros k l. unfold ImgIterSpec.produce. destruct (fmt_frame k (ssize a)); discriminate. }
+    destruct (nxt a <? N)%nat; [intros H; elim (P _ _ H)|].
+    destruct (_ =? 0) eqn:E; [|intros H; elim (P _ _ H)].
+    apply Z.eqb_eq in E. intros H. inversion H; subst; simpl. rewrite E. auto.
+  Qed.
+
+  (* ---------------------------------------- consequences, state by state *)
+
+  (** a yielded frame is the direct formatting of that frame at the image's current size,
+      and its number is the image's seek position; no other operation moves the position *)
+  Lemma yield_sim : forall s a o s' k f,
+    Inv s -> R s a -> op_ok o -> step s o = (s', OYield k f) ->
+    o = Next /\ (k < N)%nat /\ pos s' = Z.of_nat k /\ fmt_frame k (size s) = Ok f /\ img_open s' = true.
+  Proof.
+    intros s a o s' k f HI HR Ho E.
+    pose proof (step_sim o HI HR Ho) as (Hout & HI' & HR'). rewrite E in *. simpl in *.
+    destruct (sstep a o) as [a' y] eqn:Es. simpl in *. subst y.
+    destruct (sstep_yield _ _ Es) as (-> & Hk & Hp & Hf & Hc).
+    destruct HR as (_ & Rz & _). rewrite Rz in Hf.
+    rewrite (Inv_img_open HI' HR'), Hc. destruct HR' as (Rp & _). repeat split; auto. congruence.
+  Qed.
+
+  Lemma other_ops_keep_position : forall (s : st) o, o <> Next -> pos (fst (step s o)) = pos s.
+  Proof.
+    intros s o Ho. destruct o as [|p| | |z]; try contradiction; simpl; auto.
+    destruct (negb _); [reflexivity|]. destruct (ph s); reflexivity.
+  Qed.
+
+  (** no history makes the generator spin *)
+  Lemma no_hang_sim : forall s a o, Inv s -> R s a -> op_ok o -> snd (step s o) <> OHang.
+  Proof.
+    intros s a o HI HR Ho. pose proof (step_sim o HI HR Ho) as (Hout & _).
+    rewrite Hout. apply sstep_no_hang.
+  Qed.
+
+  (** where [OStop] / [ORaise] come from in the generator: the iterator has been closed, the
+      image handed to [_close_image]; a regular end has sought the source image to 0 *)
+  Lemma p2_inner_ends : forall fuel s s' x, p2_inner fuel s = (s', x) ->
+    (x = OStop -> ph s' = PEnd /\ img_open s' = false /\ src_reset s' = true) /\
+    (x = ORaise -> ph s' = PEnd /\ img_open s' = false).
+  Proof.
+    induction fuel as [|fu IH]; intros s s' x; simpl.
+    - destruct (n s <? Z.of_nat N).
+      + destruct (nth _ (cache s) None) as [[f h]|]; [destruct (_ =? h)|];
+          try destruct (fmt_frame _ (size s)); intros H; inversion H; subst; simpl;
+          split; intros; try discriminate; auto.
+      + destruct (_ =? 0); intros H; inversion H; subst; simpl; split; intros; try discriminate; auto.
+    - destruct (n s <? Z.of_nat N).
+      + destruct (nth _ (cache s) None) as [[f h]|]; [destruct (_ =? h)|];
+          try destruct (fmt_frame _ (size s)); intros H; inversion H; subst; simpl;
+          split; intros; try discriminate; auto.
+      + destruct (_ =? 0); [intros H; inversion H; subst; simpl; split; intros; try discriminate; auto|].
+        apply IH.
+  Qed.
+
+  Lemma p1_run_ends : forall fuel s s' x, p1_run fuel s = (s', x) ->
+    (x = OStop -> ph s' = PEnd /\ img_open s' = false /\ src_reset s' = true) /\
+    (x = ORaise -> ph s' = PEnd /\ img_open s' = false).
+  Proof.
+    assert (Fin : forall (s s' : st) x, finish s = (s', x) ->
+      (x = OStop -> ph s' = PEnd /\ img_open s' = false /\ src_reset s' = true) /\
+      (x = ORaise -> ph s' = PEnd /\ img_open s' = false)).
+    { intros s s' x H. inversion H; subst; simpl. split; intros; try discriminate; auto. }
+    assert (P2 : forall fuel s s' x, p2_outer fuel s = (s', x) ->
+      (x = OStop -> ph s' = PEnd /\ img_open s' = false /\ src_reset s' = true) /\
+      (x = ORaise -> ph s' = PEnd /\ img_open s' = false)).
+    { intros fuel s s' x. unfold ImgIter.p2_outer. destruct (_ =? 0); [apply Fin|apply p2_inner_ends]. }
+    induction fuel as [|fu IH]; intros s s' x; simpl.
+    - destruct (_ =? 0); [apply Fin|].
+      destruct (fmt_frame _ (size s)).
+      + intros H; inversion H; subst. split; intros; discriminate.
+      + destruct cached; [apply P2|]. intros H; inversion H; subst. split; intros; discriminate.
+      + intros H; inversion H; subst; simpl. split; intros; try discriminate; auto.
+    - destruct (_ =? 0); [apply Fin|].
+      destruct (fmt_frame _ (size s)).
+      + intros H; inversion H; subst. split; intros; discriminate.
+      + destruct cached; [apply P2|apply IH].
+      + intros H; inversion H; subst; simpl. split; intros; try discriminate; auto.
+  Qed.
+
+  Lemma step_ends : forall (s s' : st) o x, step s o = (s', x) -> ph s <> PEnd ->
+    (x = OStop -> ph s' = PEnd /\ img_open s' = false /\ src_reset s' = true) /\
+    (x = ORaise -> ph s' = PEnd /\ img_open s' = false).
+  Proof.
+    intros s s' o x. destruct o as [|p| | |z]; simpl.
+    - destruct (ph s); try (intros H _; revert H; first [apply p1_run_ends | apply p2_inner_ends]).
+      intros _ H. contradiction.
+    - destruct (negb _); [|destruct (ph s)]; intros H _; inversion H; subst; split; intros; discriminate.
+    - intros H _; inversion H; subst; split; intros; discriminate.
+    - intros H _; inversion H; subst; split; intros; discriminate.
+    - intros H _; inversion H; subst; split; intros; discriminate.
+  Qed.
+
+  (** exhaustion: position 0, countdown 0, source image sought to 0, image closed *)
+  Lemma exhaustion_sim : forall s a s',
+    Inv s -> R s a -> ph s <> PEnd -> step s Next = (s', OStop) ->
+    pos s' = 0 /\ loop_no s' = Some 0 /\ src_reset s' = true /\ ph s' = PEnd /\ img_open s' = false.
+  Proof.
+    intros s a s' HI HR Hph E.
+    destruct (step_ends _ _ E Hph) as (Hs & _). destruct (Hs eq_refl) as (? & ? & ?).
+    pose proof (step_sim Next HI HR I) as (Hout & HI' & HR'). rewrite E in *. simpl in *.
+    destruct (sstep a Next) as [a' y] eqn:Es. simpl in *. subst y.
+    assert (Hc : closed a = false).
+    { destruct HR as (_ & _ & _ & RR). destruct (ph s); try tauto; destruct RR as (_ & ? & _); assumption. }
+    destruct (sstep_stop_open _ Hc Es) as (Sp & Sl & _).
+    destruct HR' as (Rp & _ & Rl & _). repeat split; auto; congruence.
+  Qed.
+
+  (** seek(p) on a started, open iterator: the next frame is frame p at the current size;
+      the position and the countdown are left alone by the seek itself and the countdown
+      also by the frame that follows *)
+  Lemma seek_sim : forall s a p,
+    Inv s -> R s a -> (ph s = P1 \/ ph s = P2) -> 0 <= p < Z.of_nat N ->
+    let s1 := fst (step s (Seek p)) in
+    let r2 := step s1 Next in
+    snd (step s (Seek p)) = OSeekOk /\ pos s1 = pos s /\ loop_no s1 = loop_no s /\
+    loop_no (fst r2) = loop_no s /\ pos (fst r2) = p /\
+    snd r2 = match fmt_frame (Z.to_nat p) (size s) with
+             | Ok f => OYield (Z.to_nat p) f
+             | _ => ORaise
+             end.
+  Proof.
+    intros s a p HI HR Hph Hp s1 r2.
+    pose proof (step_sim (Seek p) HI HR I) as (Hout1 & HI1 & HR1).
+    fold s1 in HI1, HR1.
+    pose proof (step_sim Next HI1 HR1 I) as (Hout2 & HI2 & HR2).
+    fold r2 in Hout2, HI2, HR2.
+    destruct HR as (Rp & Rz & Rl & RR).
+    assert (Hst : started a = true /\ closed a = false /\ left a = rep s).
+    { destruct Hph as [E|E]; rewrite E in RR; tauto. }
+    destruct Hst as (Hst & Hcl & Hle).
+    assert (Hll : loop_no s = Some (rep s)).
+    { destruct HI as (_ & HI). destruct Hph as [E|E]; rewrite E in HI; tauto. }
+    assert (Es : sstep a (Seek p) =
+      ({| started := true; closed := false; nxt := Z.to_nat p; left := left a; spos := spos a;
+          ssize := ssize a; sloop := sloop a |}, OSeekOk)).
+    { simpl. replace (negb _) with false.
+      - rewrite Hcl, Hst. reflexivity.
+      - symmetry. apply negb_false_iff, andb_true_iff. split; [apply Z.leb_le|apply Z.ltb_lt]; lia. }
+    rewrite Es in *. simpl in Hout1, HR1.
+    destruct HR1 as (Rp1 & Rz1 & Rl1 & _). simpl in Rp1, Rz1, Rl1.
+    set (a1 := {| started := true; closed := false; nxt := Z.to_nat p; left := left a; spos := spos a;
+                  ssize := ssize a; sloop := sloop a |}) in *.
+    assert (Es2 : sstep a1 Next = produce a1 (Z.to_nat p) (left a)).
+    { rewrite sstep_next_lt; simpl; auto. lia. }
+    rewrite Es2 in *.
+    destruct HR2 as (Rp2 & _ & Rl2 & _).
+    unfold ImgIterSpec.produce in *. simpl in *.
+    rewrite Rz in *.
+    destruct (fmt_frame (Z.to_nat p) (size s)); simpl in *;
+      repeat split; try congruence; try lia.
+  Qed.
+
+  (* ------------------------------------- an iterator that has ended stays so *)
+
+  Definition in_range (p : Z) : bool := (0 <=? p) && (p <? Z.of_nat N).
+
+  (** what every operation answers once the iterator has ended *)
+  Definition ended_view (p : Z) (l : option Z) (o : op Size) : outcome Str * Z * option Z * bool :=
+    (match o with
+     | Next => OStop
+     | Seek q => if in_range q then OSeekClosed else OSeekBad
+     | Close | Drop => OClosed
+     | SetImageSize _ => OSized
+     end, p, l, false).
+
+  Lemma ended_forever : forall ops (s : st),
+    ph s = PEnd -> img_open s = false -> trace s ops = map (ended_view (pos s) (loop_no s)) ops.
+  Proof.
+    induction ops as [|o ops IH]; intros s Hph Hio; [reflexivity|].
+    simpl. destruct o as [|p| | |z]; simpl.
+    - rewrite Hph. simpl. rewrite Hio. f_equal. apply IH; assumption.
+    - unfold in_range. destruct ((0 <=? p) && (p <? Z.of_nat N)); simpl.
+      + rewrite Hph. simpl. rewrite Hio. f_equal. apply IH; assumption.
+      + rewrite Hio. f_equal. apply IH; assumption.
+    - f_equal. apply (IH (end_it s)); reflexivity.
+    - f_equal. apply (IH (end_it s)); reflexivity.
+    - rewrite Hio. f_equal. apply (IH (set_size s z)); assumption.
+  Qed.
+
+  Lemma close_final : forall (s : st) o ops, o = Close \/ o = Drop ->
+    trace s (o :: ops) = (OClosed, pos s, loop_no s, false) :: map (ended_view (pos s) (loop_no s)) ops.
+  Proof.
+    intros s o ops [-> | ->]; simpl; f_equal; apply (ended_forever ops (s := end_it s)); reflexivity.
+  Qed.
 End Refinement.
